@@ -168,3 +168,9 @@ package syncx
 //@ func (manager *ResourceManager) Inject
 //@   property C07
 //@   ensures inDom(manager.resources, key) && manager.resources[key] == resource
+
+// Barrier.Guard(fn): runs fn once while holding the barrier's lock (trusted by inspection)
+//@ func (b *Barrier) Guard
+//@   trusted
+//@   flag runs_funcargs
+//@   modifies nothing
